@@ -463,4 +463,94 @@ example : ∃ st, run (fun _ => 0) {} [.recv 1, .enq 1 true, .recv 2, .enq 2 tru
     runFrom 1 { sent := [0, 1] } (handEvents (fun _ _ => 0) st.inflight) = .ok { sent := [0, 1], hcnt := 2, kinds := [0, 0] } :=
   ⟨_, rfl, rfl, rfl⟩
 
+/-! ## Part 7 — dispatch clauses: hypotheses derived, relation preserved -/
+
+/-- the part of the model/acceptor simulation relation the dispatch clauses need -/
+structure SimD (kindOf : Nat → Nat → Nat) (s : Nat) (st : St) (a : Acc) : Prop where
+  hsent : a.sent = (st.sess s).sent
+  hhcnt : a.hcnt + (itemsOf s st.queue).length = (st.sess s).admitted.length
+  hkinds : a.kinds = (a.sent.take a.hcnt).map (kindOf s)
+  hdrain : a.drainOk = true → st.drained = true
+  hlate : ∀ i, a.lateFrom = some i → ∀ n, n ∈ (st.sess s).sent → i ≤ n → n ∈ (st.sess s).late
+
+/-- Completeness, dispatch clauses, with the hypotheses of `c28_lts_hand_accepted_partial` DERIVED from
+    the model's invariants: for every reachable state and every `take`, if acceptor and model are
+    related by `SimD` (same SEND list, `hcnt` = admitted minus still-queued, `kinds` = outcomes of the
+    dispatched prefix, `drainOk` only after the model's drain completed, everything from `lateFrom` on
+    is a post-fence SEND), then all `hand` events of that take are accepted for session `s` — no
+    `dispatch-after-drain-returned` (a completed drain leaves no queue), no `dispatch-out-of-order`
+    (queued SENDs are the tail of the admitted ones, which are a prefix of the SEND list), no
+    `dispatch-after-fence` (post-fence SENDs are never admitted) — and `SimD` holds again afterwards. -/
+theorem c28_lts_take_accepted (kindOf : Nat → Nat → Nat) (h : Reach shardOf st) {sh k : Nat}
+    (hs : step shardOf st (.take sh k) = some st') (s : Nat) (a : Acc) (hsim : SimD kindOf s st a) :
+    ∃ a', runFrom s a (handEvents kindOf (takeP (fun it => shardOf it.1 == sh) k st.queue).1) = .ok a' ∧
+      SimD kindOf s st' a' ∧ a'.acnt = a.acnt ∧ a'.closed = a.closed ∧ a'.lastPush = a.lastPush := by
+  have hI := inv_reach h
+  obtain ⟨X, hX⟩ := qsuffix_reach h s
+  have hord := c28_ack_once_in_order h s
+  obtain ⟨t, ht⟩ := hord.2.1
+  -- the step
+  have hstep := hs
+  simp only [step] at hs
+  split at hs
+  · cases hs
+  · rename_i hguard
+    cases hs
+    have key : itemsOf s (takeP (fun it => shardOf it.1 == sh) k st.queue).1 ++
+        itemsOf s (takeP (fun it => shardOf it.1 == sh) k st.queue).2 = itemsOf s st.queue := by
+      by_cases hsx : shardOf s = sh
+      · exact (takeP_in _ s (by intro it hit; simp [hit, hsx]) k st.queue).symm
+      · obtain ⟨a1, b1⟩ := takeP_out (fun it => shardOf it.1 == sh) s (by intro it hit; simp [hit, hsx]) k st.queue
+        rw [a1, b1]; simp
+    generalize hT : itemsOf s (takeP (fun it => shardOf it.1 == sh) k st.queue).1 = T at key
+    generalize hR : itemsOf s (takeP (fun it => shardOf it.1 == sh) k st.queue).2 = R at key
+    have hadm : (st.sess s).admitted = X ++ (T ++ R) := by rw [key]; exact hX.symm
+    have hsentE : a.sent = X ++ (T ++ (R ++ t)) := by rw [hsim.hsent, ← ht, hadm]; simp
+    have hhc : a.hcnt = X.length := by
+      have := hsim.hhcnt; rw [hadm, ← key] at this; simp at this; omega
+    have hd : a.drainOk = false := by
+      cases hdo : a.drainOk with
+      | false => rfl
+      | true =>
+        have := (c28_drain_fence h).2 (hsim.hdrain hdo)
+        exfalso; apply hguard
+        right; left; rw [this.2.1]; simp
+    have hp : T <+: a.sent.drop a.hcnt := by
+      rw [hhc, hsentE, List.drop_left]; exact List.prefix_append _ _
+    have hl : ∀ i, a.lateFrom = some i → a.hcnt + T.length ≤ i := by
+      intro i hi
+      have hle : (st.sess s).admitted.length ≤ i := by
+        rcases Nat.lt_or_ge i (st.sess s).admitted.length with hlt | hge
+        · exfalso
+          have hsr := hI.sentRange s
+          have hlen : i < (st.sess s).sent.length := by rw [← ht]; simp; omega
+          have h1 : (st.sess s).sent[i]? = some i := by
+            rw [hsr, List.getElem?_range (by simpa using hlen)]
+          have h2 : (st.sess s).admitted[i]? = some i := by
+            rw [← ht, List.getElem?_append_left hlt] at h1; exact h1
+          have hmemA : i ∈ (st.sess s).admitted := List.mem_of_getElem? h2
+          have hmemS : i ∈ (st.sess s).sent := List.mem_of_getElem? h1
+          exact (hI.lateOk s i (hsim.hlate i hi i hmemS (Nat.le_refl i))).2.1 hmemA
+        · exact hge
+      rw [hadm] at hle; simp at hle; omega
+    have hpart := c28_lts_hand_accepted_partial kindOf s (takeP (fun it => shardOf it.1 == sh) k st.queue).1 a hd
+      (by rw [hT]; exact hp) (by rw [hT]; exact hl)
+    rw [hT] at hpart
+    obtain ⟨a', h1, h2, h3, h4, h5, h6, h7, h8, _, h10⟩ := hpart
+    refine ⟨a', h1, ?_, h5, h6, h10⟩
+    constructor
+    · rw [h4]; exact hsim.hsent
+    · show a'.hcnt + (itemsOf s (takeP (fun it => shardOf it.1 == sh) k st.queue).2).length = (st.sess s).admitted.length
+      rw [hR, h2, hhc, hadm]; simp; omega
+    · rw [h3, h4, h2, hsim.hkinds, hhc, hsentE]
+      have e1 : (X ++ (T ++ (R ++ t))).take X.length = X := by simp
+      have e2 : (X ++ (T ++ (R ++ t))).take (X.length + T.length) = X ++ T := by
+        have : X ++ (T ++ (R ++ t)) = (X ++ T) ++ (R ++ t) := by simp
+        rw [this, ← List.length_append, List.take_left]
+      rw [e1, e2]; simp
+    · intro hdo; rw [h7] at hdo; exact hsim.hdrain hdo
+    · intro i hi; rw [h8] at hi; exact hsim.hlate i hi
+
+example : SimD (fun _ _ => 0) 1 {} {} := ⟨rfl, rfl, rfl, (fun h => by cases h), (fun i h => by cases h)⟩
+
 end WK.C28
